@@ -99,6 +99,56 @@ func checkC09(c *Ctx, e *Env) {
 				}
 			}
 			sort.Slice(reqs, func(i, j int) bool { return reqs[i].Fact < reqs[j].Fact })
+			// disjunctive requirements: a field that every accepting path constrains, but not every path in
+			// the same way ("seconds != 0 or nanos != 0"): the alternatives are the per-path fact sets about it
+			alts := map[string][][]string{}
+			{
+				fields := map[string]bool{}
+				for _, pf := range sv.Paths {
+					for f := range pf {
+						if !sv.Facts[f] {
+							for _, mm := range reqField.FindAllStringSubmatch(f, -1) {
+								fields[mm[1]] = true
+							}
+						}
+					}
+				}
+				for fld := range fields {
+					var sets [][]string
+					every := true
+					seen := map[string]bool{}
+					for _, pf := range sv.Paths {
+						var set []string
+						for f := range pf {
+							if sv.Facts[f] {
+								continue
+							}
+							ms := reqField.FindAllStringSubmatch(f, -1)
+							if len(ms) == 1 && ms[0][1] == fld {
+								set = append(set, f)
+							}
+						}
+						if len(set) == 0 {
+							every = false
+							break
+						}
+						sort.Strings(set)
+						if k := strings.Join(set, " ∧ "); !seen[k] {
+							seen[k] = true
+							sets = append(sets, set)
+						}
+					}
+					if every && len(sets) > 1 {
+						sort.Slice(sets, func(i, j int) bool { return strings.Join(sets[i], "") < strings.Join(sets[j], "") })
+						alts[fld] = sets
+					}
+				}
+			}
+			if os.Getenv("E1DEBUG") == tn {
+				for f, a := range alts {
+					fmt.Println("DBG alt", tn, f, a)
+				}
+			}
 			if os.Getenv("E1DEBUG") == tn {
 				for _, rq := range reqs {
 					fmt.Println("DBG req", tn, rq.Fact)
@@ -110,6 +160,8 @@ func checkC09(c *Ctx, e *Env) {
 				pos string
 				n   int
 				bad string
+				unk bool
+				val string
 			}
 			res := map[string]*agg{}
 			unknown := map[string]bool{}
@@ -149,8 +201,63 @@ func checkC09(c *Ctx, e *Env) {
 							case "yes":
 							case "unknown":
 								unknown[rq.Fact] = true
+								a.unk = true
+								a.val = st.canon(val)
 							default:
 								a.bad = why + " on path {" + clip(strings.Join(st.facts, " "), 300) + "}"
+							}
+						}
+						var altFields []string
+						for fld := range alts {
+							altFields = append(altFields, fld)
+						}
+						sort.Strings(altFields)
+						for _, fld := range altFields {
+							val, has := ev.Row[fld]
+							if !has {
+								continue
+							}
+							var descs []string
+							for _, set := range alts[fld] {
+								descs = append(descs, strings.Join(set, " ∧ "))
+							}
+							k := fmt.Sprintf("%s.%s: %s ← %s", tn, fld, strings.Join(descs, "  ∨  "), h.Key+"→"+siteKey(ev))
+							a := res[k]
+							if a == nil {
+								a = &agg{pos: p.Pos(ev.Pos.Pos())}
+								res[k] = a
+							}
+							a.n++
+							if a.bad != "" {
+								continue
+							}
+							if ev.Old != nil && ev.Old.Row != nil && st.canon(val) == st.canon(ev.Old.Row[fld]) {
+								continue // unchanged column: induction
+							}
+							okAlt, unk := false, false
+							for _, set := range alts[fld] {
+								all := true
+								for _, f := range set {
+									verdict, _ := entails(x, m, st, mv, ev, requirement{Fact: f, Field: fld}, val)
+									if verdict == "unknown" {
+										unk = true
+									}
+									if verdict != "yes" {
+										all = false
+									}
+								}
+								if all {
+									okAlt = true
+								}
+							}
+							switch {
+							case okAlt:
+							case unk:
+								unknown[strings.Join(descs, " ∨ ")] = true
+								a.unk = true
+								a.val = st.canon(val)
+							default:
+								a.bad = fmt.Sprintf("%s.%s = %s satisfies none of the alternatives the state validator accepts (%s)", tn, fld, st.canon(val), strings.Join(descs, "  ∨  ")) + " on path {" + clip(strings.Join(st.facts, " "), 300) + "}"
 							}
 						}
 					}
@@ -164,9 +271,12 @@ func checkC09(c *Ctx, e *Env) {
 			for _, k := range ks {
 				a := res[k]
 				nChecked++
-				if a.bad != "" {
+				switch {
+				case a.bad != "":
 					c.Violate("C09.AGREE", k, a.pos, a.bad, nil)
-				} else {
+				case a.unk:
+					c.Note("C09.AGREE", k, a.pos, "not decided for the written value "+a.val+": the matcher does not recognise this kind of requirement / value (listed, not claimed)")
+				default:
 					c.Hold("C09.AGREE", k, a.pos, fmt.Sprintf("entailed on all %d path visits", a.n), nil)
 				}
 			}
@@ -235,7 +345,57 @@ func instantiate(st *State, ev *Event, fact string) (string, bool) {
 	}
 	// gogo → api converters are field-preserving
 	out = regexp.MustCompile(`DateCriteria\.ToAPI\(([^()]*)\)`).ReplaceAllString(out, "$1")
+	out = regexp.MustCompile(`conv\(([^()]*)\)`).ReplaceAllString(out, "$1")
 	return out, ok
+}
+
+var storedCol = regexp.MustCompile(`^([A-Z][A-Za-z]*)#\d+\.([A-Za-z.]+)$`)
+
+// sourceGuarantees: the value is column col of a row fetched from table src; does src's own state
+// validator make the demand rq on that column (on all of its accepting paths)? Then the demand holds
+// for every stored row of src by induction over reachable states, and a copy inherits it. Keys of
+// auto-increment tables and decimal ledger columns carry their guarantees by construction.
+func sourceGuarantees(m *Model, x *Explorer, src, col string, rq requirement) bool {
+	t := m.Tables[src]
+	if t == nil {
+		return false
+	}
+	gp, ok := gogoPkgOf[t.APIPkg]
+	if !ok {
+		return false
+	}
+	if len(t.PK) == 1 && snakeToCamel(t.PK[0]) == col && t.AutoInc && strings.HasPrefix(rq.Fact, "-Eq(0, req.") {
+		return true
+	}
+	sv := exploreStateValidate(m, x, gp, src)
+	if !sv.OK {
+		return false
+	}
+	want := strings.ReplaceAll(rq.Fact, "req."+rq.Field, "req."+col)
+	if sv.Facts[want] {
+		return true
+	}
+	// decimal classes
+	if strings.HasPrefix(rq.Fact, "+DecNonNeg(") || strings.HasPrefix(rq.Fact, "+DecPos(") {
+		if at, ok := sv.Attrs["parse(req."+col+")"]; ok {
+			if strings.HasPrefix(rq.Fact, "+DecPos(") {
+				return at.Pos
+			}
+			return at.NonNeg || at.Pos
+		}
+	}
+	// a weaker length limit is implied by a stronger one
+	if mm := reLenLimit.FindStringSubmatch(want); mm != nil {
+		limit, _ := strconv.Atoi(mm[1])
+		for f := range sv.Facts {
+			if m2 := reLenLimit.FindStringSubmatch(f); m2 != nil && m2[2] == mm[2] {
+				if l2, _ := strconv.Atoi(m2[1]); l2 <= limit {
+					return true
+				}
+			}
+		}
+	}
+	return false
 }
 
 var reLenLimit = regexp.MustCompile(`^-Lt\((\d+), len\((.*)\)\)$`)
@@ -287,13 +447,32 @@ func entails(x *Explorer, m *Model, st *State, mv *Validated, ev *Event, rq requ
 	}
 	v := st.canon(val)
 	t := ev.Table
-	stored := regexp.MustCompile(`^[A-Z][A-Za-z]*#\d+\.[A-Za-z.]+$`).MatchString(v) // a column of a fetched row
+	stored := false // a column of a fetched row whose own table's state validator makes the same demand (induction over reachable states)
+	if mm := storedCol.FindStringSubmatch(v); mm != nil {
+		stored = sourceGuarantees(m, x, mm[1], mm[2], rq)
+		if !stored && os.Getenv("E1DEBUG") == "stored" {
+			fmt.Println("DBG stored-not-guaranteed", t.Name+"."+rq.Field, "←", v, rq.Fact)
+		}
+	}
 	if holdsFact(st, mv, inst) {
 		return "yes", ""
 	}
 	body := rq.Fact[1:]
 	pol := rq.Fact[:1]
 	switch {
+	// ---- must be nil / must equal a constant
+	case pol == "+" && strings.HasPrefix(body, "Nil(req.") && v == "nil":
+		return "yes", ""
+	case pol == "+" && strings.HasPrefix(body, "Eq(") && strings.HasSuffix(body, ", req."+rq.Field+")"):
+		if k := strings.TrimSuffix(strings.TrimPrefix(body, "Eq("), ", req."+rq.Field+")"); k == v {
+			return "yes", ""
+		}
+	// ---- a component of a stored timestamp (seconds / nanos) tested against zero
+	case strings.HasPrefix(body, "Eq(0, Timestamp.GetSeconds(req.") || strings.HasPrefix(body, "Eq(0, Timestamp.GetNanos(req."):
+		if stored {
+			return "yes", ""
+		}
+		return "no", fmt.Sprintf("the state validator tests a component of the timestamp %s.%s (%s) but for the stored value %s nothing — no fact on the path, no message-validator fact, no demand of the column it is copied from — constrains that component", t.Name, rq.Field, rq.Fact, v)
 	// ---- non-zero keys
 	case pol == "-" && strings.HasPrefix(body, "Eq(0, req."):
 		isPK := len(t.PK) == 1 && snakeToCamel(t.PK[0]) == rq.Field
@@ -398,11 +577,17 @@ func entails(x *Explorer, m *Model, st *State, mv *Validated, ev *Event, rq requ
 }
 
 func nonEmpty(st *State, mv *Validated, t *Table, rq requirement, v string, stored bool) (string, string) {
+	// lower-casing preserves emptiness: decide on the argument
+	if strings.HasPrefix(v, "lower(") && strings.HasSuffix(v, ")") {
+		return nonEmpty(st, mv, t, rq, strings.TrimSuffix(strings.TrimPrefix(v, "lower("), ")"), false)
+	}
 	switch {
-	case stored, strings.HasPrefix(v, "Format"), strings.HasPrefix(v, "addr("), strings.HasPrefix(v, "addrstr("), strings.HasPrefix(v, "lower("), strings.HasPrefix(v, "conv("):
+	case stored, strings.HasPrefix(v, "Format"), strings.HasPrefix(v, "addr("), strings.HasPrefix(v, "addrstr("), strings.HasPrefix(v, "conv("):
 		return "yes", ""
 	case strings.HasPrefix(v, `"`) && v != `""`:
 		return "yes", ""
+	case strings.HasPrefix(v, "str("):
+		return "yes", "" // the rendering of a number is never empty
 	case v == `""` || v == "nil":
 		return "no", fmt.Sprintf("%s.%s is written empty (%s) but the state validator requires a non-empty value", t.Name, rq.Field, v)
 	case strings.HasPrefix(v, "req."):
@@ -420,6 +605,9 @@ func nonEmpty(st *State, mv *Validated, t *Table, rq requirement, v string, stor
 			}
 		}
 		return "no", fmt.Sprintf("%s.%s = %s is not proven non-empty by the message validator", t.Name, rq.Field, v)
+	case strings.Contains(v, "(req.") && !strings.HasPrefix(v, "invoke:"):
+		// a transformation of a request field that is not known to preserve non-emptiness (trimming, slicing, …)
+		return "no", fmt.Sprintf("%s.%s = %s: the stored value is a transformation of the request field that may yield the empty string even when the message validator saw a non-empty one", t.Name, rq.Field, v)
 	}
 	return "unknown", ""
 }
